@@ -374,19 +374,31 @@ def _check(ctx: Ctx) -> None:
             import re as _re
 
             def dkey(w, k):
-                """the `state variable == FIELD(k)` atoms of a world: [(variable, equal?)]"""
-                return [(next(iter(key[1] - {f"FIELD({k})"})), val) for key, val in w.items()
-                        if key[0] == "eq" and f"FIELD({k})" in key[1] and len(key[1]) == 2 and _re.fullmatch(r"\w+", next(iter(key[1] - {f"FIELD({k})"})))]
+                """the `state variable == <the token's field k>` atoms of a world: [(variable, what it is compared with, equal?)]; the
+                other side is FIELD(k) itself or a tuple of the fields (`(n, d) != in_force`)"""
+                out = []
+                for key, val in w.items():
+                    if key[0] != "eq" or len(key[1]) != 2:
+                        continue
+                    a_, b_ = tuple(key[1])
+                    for var, oth in ((a_, b_), (b_, a_)):
+                        if _re.fullmatch(r"\w+", var) and f"FIELD({k})" in oth and _re.fullmatch(r"[\w(),\s]+", oth) and not _re.search(r"[*/+-]", oth):
+                            out.append((var, oth, val))
+                return out
             lost, stale, odd = [], [], []
             for st in finals:
                 w = st["world"]
-                same = all(any(val for _, val in dkey(w, k)) for k in (1, 2))        # both fields known equal to the state in force
+                same = all(any(val for _, _, val in dkey(w, k)) for k in (1, 2))        # both fields known equal to the state in force
                 if not same and not st["reached"]:
                     lost.append({(k if isinstance(k, str) else "/".join(sorted(map(str, k[1]))) if k[0] == "eq" else str(k[1])): v for k, v in w.items()})
                 for k in (1, 2):
-                    for var, _ in dkey(w, k):
+                    for var, oth, _ in dkey(w, k):
                         endv = st["nz"].env.get(var)
-                        if endv is None or endv.atoms() != {f"FIELD({k})"}:
+                        if oth == f"FIELD({k})":
+                            fresh = endv is not None and endv.atoms() == {f"FIELD({k})"}
+                        else:
+                            fresh = endv is not None and f"FIELD({k})" in endv.canon()
+                        if not fresh:
                             stale.append((var, k))
                 if st["reached"]:
                     n_, d_ = st["at"].norm(kwarg(ts_ctor, "numerator")), st["at"].norm(kwarg(ts_ctor, "denominator"))
